@@ -31,6 +31,8 @@ mod c18;
 mod c19;
 mod c20;
 
+static LAST_PANIC: std::sync::Mutex<String> = std::sync::Mutex::new(String::new());
+
 fn main() {
     let args: Vec<String> = std::env::args().collect();
     if args.len() < 5 {
@@ -41,7 +43,16 @@ fn main() {
     let scale: usize = args[2].parse().expect("scale");
     let seed: u64 = args[3].parse().expect("seed");
     let outdir = &args[4];
-    if std::env::var("VERIF_SHOW_PANIC").is_err() { std::panic::set_hook(Box::new(|_| {})); }
+    // panics are expected and caught per case / per clause; the hook only remembers where the last one came from, so that a
+    // panic of the implementation in a place where the harness does not expect one can still be reported with its location
+    if std::env::var("VERIF_SHOW_PANIC").is_err() {
+        std::panic::set_hook(Box::new(|info| {
+            let loc = info.location().map(|l| format!("{}:{}", l.file(), l.line())).unwrap_or_default();
+            let msg = if let Some(s) = info.payload().downcast_ref::<&str>() { s.to_string() }
+                      else if let Some(s) = info.payload().downcast_ref::<String>() { s.clone() } else { String::new() };
+            if let Ok(mut g) = LAST_PANIC.lock() { *g = format!("{} at {}", msg, loc); }
+        }));
+    }
     let mut ctx = core::Ctx::new(seed ^ 0xC0FFEE, scale);
     if args.len() > 5 && args[5] == "--sym" {
         ctx.sym = true;
@@ -51,7 +62,7 @@ fn main() {
     } else if args.len() > 5 {
         ctx.only = Some(args[5].clone());
     }
-    match prop {
+    let run = std::panic::catch_unwind(std::panic::AssertUnwindSafe(|| match prop {
         "C01" => { c01::cases(&mut ctx); c01::preds(&mut ctx); }
         "C02" => { c02::cases(&mut ctx); c02::preds(&mut ctx); }
         "C04" => { c04::cases(&mut ctx); c04::preds(&mut ctx); }
@@ -73,6 +84,14 @@ fn main() {
         "C12" => { c12::cases(&mut ctx); c12::preds(&mut ctx); }
         "C03" => { c03::cases(&mut ctx); c03::preds(&mut ctx); }
         _ => { eprintln!("unknown property {}", prop); std::process::exit(2); }
+    }));
+    if run.is_err() {
+        // the implementation panicked outside every place where a panic is an expected outcome (e.g. a mutable view or an
+        // index that must be valid): reported as a failed clause with the panic's message and location
+        let what = LAST_PANIC.lock().map(|g| g.clone()).unwrap_or_default();
+        ctx.pred_evals += 1;
+        ctx.pred_fails.push(core::PredFail { pred: "no-unexpected-panic".to_string(), inp: vec![],
+            detail: format!("the implementation panicked where the property requires a value: {}", what) });
     }
     std::fs::create_dir_all(outdir).unwrap();
     if ctx.sym {
